@@ -10,6 +10,7 @@ mod c12;
 mod c17;
 mod c09;
 mod c20;
+mod c19;
 
 fn main() {
     let args: Vec<String> = std::env::args().collect();
@@ -30,6 +31,7 @@ fn main() {
             "C17" => c17::search(seed, &budget, thorough),
             "C09" => c09::search(seed, &budget, thorough),
             "C20" => c20::search(seed, &budget, thorough),
+            "C19" => c19::search(seed, &budget, thorough),
             _ => { println!("NOORACLE"); return; }
         };
         match res {
@@ -47,6 +49,7 @@ fn main() {
             "C17" => c17::run(&input),
             "C09" => c09::run(&input),
             "C20" => c20::run(&input),
+            "C19" => c19::run(&input),
             _ => Err("no oracle".to_string()),
         };
         match r {
